@@ -272,14 +272,22 @@ def run(ctx):
                        "sigA": enc(o["sigA"]), "sigB": enc(o["sigB"]), "kindsA": o["kindsA"], "kindsB": o["kindsB"]})
 
     def validate(trs, dev, name):
-        tf = ctx.wd / f"{name}.ndjson"
-        tlc.write_ndjson(tf, trs)
-        rv = tlc.run("NestedTrace", tlc.cfg(ctx, f"{name}.cfg", {**base, "MaxPre": 0, "MaxX": 0, "MaxPost": 0, "DevRenderOrderEnv": dev}, spec="TraceSpec", invariants=["Verdict"]),
-                     wd=ctx.wd, env={"TRACE_FILE": str(tf)}, timeout=3000, defs=defs)
-        ctx.add_tlc(name, rv)
-        if len(rv.records) != len(trs):
-            raise tlc.MachineryFailure(f"{name}: {len(rv.records)} verdicts for {len(trs)} traces")
-        return {v["id"]: v for v in rv.records}
+        # (TLC reads a batch of traces at start-up: bounded batches)
+        out = {}
+        B = 20000
+        for b in range(0, max(1, len(trs)), B):
+            part = trs[b:b + B]
+            nm = name if len(trs) <= B else f"{name}_{b // B}"
+            tf = ctx.wd / f"{nm}.ndjson"
+            tlc.write_ndjson(tf, part)
+            rv = tlc.run("NestedTrace", tlc.cfg(ctx, f"{nm}.cfg", {**base, "MaxPre": 0, "MaxX": 0, "MaxPost": 0, "DevRenderOrderEnv": dev}, spec="TraceSpec", invariants=["Verdict"]),
+                         wd=ctx.wd, env={"TRACE_FILE": str(tf)}, timeout=3000, defs=defs)
+            ctx.add_tlc(nm, rv)
+            if len(rv.records) != len(part):
+                raise tlc.MachineryFailure(f"{nm}: {len(rv.records)} verdicts for {len(part)} traces")
+            out.update({v["id"]: v for v in rv.records})
+            tf.unlink()
+        return out
     vs = validate(traces, False, "NestedTrace")
     suspects = [t for t in traces if vs[t["id"]]["same"] or vs[t["id"]]["ma"] or vs[t["id"]]["mb"]]
     for t in traces:
